@@ -96,9 +96,10 @@ impl Observer for FsWatcher {
 }
 
 const SIZES: [usize; 6] = [0, 1, 4095, 4096, 65537, 1 << 20];
-const BEHAVIOURS: [&str; 8] = [
-    "stdout", "file", "none", "both", "direct", "rm3", "fail-partial", "killself",
+const BEHAVIOURS: [&str; 9] = [
+    "stdout", "file", "none", "both", "direct", "rm3", "fail-partial", "killself", "append",
 ];
+const CELLS: u64 = 9 * 6 * 3;
 const PRIORS: [&str; 3] = ["absent", "user", "generated"];
 
 fn behaviour_rule(b: &str, size: usize, version: u32, dep: bool) -> Rule {
@@ -114,9 +115,10 @@ fn behaviour_rule(b: &str, size: usize, version: u32, dep: bool) -> Rule {
         "both" => stmts.push(Stmt::Out { mode: OutMode::Both, pad }),
         "direct" => stmts.push(Stmt::Out { mode: OutMode::Direct, pad }),
         "rm3" => stmts.push(Stmt::Out { mode: OutMode::Rm3, pad }),
+        "append" => stmts.push(Stmt::Out { mode: OutMode::Append, pad }),
         "fail-partial" => {
             stmts.push(Stmt::Out { mode: if size % 2 == 0 { OutMode::Stdout } else { OutMode::File }, pad });
-            stmts.push(Stmt::FailIf { flag: "on".into(), code: 5, partial: true });
+            stmts.push(Stmt::FailIf { flag: "on".into(), code: 5, partial: true, direct: false });
         }
         "killself" => {
             stmts.push(Stmt::Out { mode: if size % 2 == 0 { OutMode::File } else { OutMode::Stdout }, pad });
@@ -136,18 +138,19 @@ impl Property for C04 {
     }
     fn runs(&self, tier: Tier) -> u64 {
         match tier {
-            // the cross product 8 behaviours x 6 sizes x 3 prior states = 144 cells;
+            // the cross product 9 behaviours x 6 sizes x 3 prior states = 162 cells;
             // thorough walks every cell several times with different schedules and
             // kill points, quick samples each cell at least once
-            Tier::Quick => 1440,
-            Tier::Thorough => 14400,
+            Tier::Quick => 12 * CELLS,
+            Tier::Thorough => 120 * CELLS,
         }
     }
     fn rule(&self) -> &'static str {
         "cells of {stdout,$3,none,both,writes $1,creates+deletes $3,exit!=0 after partial output,killed \
-         by own signal} x sizes {0,1,4095,4096,65537,1MiB} x prior state {absent,user file,previously \
-         generated}; cell = run_index mod 144 (every cell enumerated); odd rounds additionally SIGKILL the \
-         script at a drawn yield (run_index/144 walks the yields); per-step watcher records every state \
+         by own signal,appends to $3} x sizes {0,1,4095,4096,65537,1MiB} x prior state {absent,user file,\
+         previously generated}; cell = run_index mod 162 (every cell enumerated); odd rounds additionally \
+         SIGKILL the script at a drawn yield (run_index/162 walks the yields); every third round a stale \
+         <target>.redo.tmp (as a killed earlier run leaves it) exists beforehand; per-step watcher records every state \
          of the target a reader can see; oracle: final bytes and status per cell, previous content kept \
          on any failure, no *.redo.tmp left, every observed state is the previous complete content, \
          absence or the complete new content, bytes under one inode never change; non-trivial = the \
@@ -155,11 +158,11 @@ impl Property for C04 {
          signature)"
     }
     fn generate(&self, rng: &mut Rng, seed: u64, _tier: Tier, index: u64) -> Case {
-        let cell = (index % 144) as usize;
-        let round = index / 144;
-        let b = BEHAVIOURS[cell % 8];
-        let size = SIZES[(cell / 8) % 6];
-        let prior = PRIORS[cell / 48];
+        let cell = (index % CELLS) as usize;
+        let round = index / CELLS;
+        let b = BEHAVIOURS[cell % 9];
+        let size = SIZES[(cell / 9) % 6];
+        let prior = PRIORS[cell / 54];
         let dep = rng.chance(1, 2);
         let mut sc = Scenario {
             family: "c04".into(),
@@ -199,6 +202,14 @@ impl Property for C04 {
             sc.rules.push(("t.do".into(), rule));
         }
         let prog = if rng.chance(1, 2) { "redo" } else { "redo-ifchange" };
+        if round % 3 == 2 && prior != "user" {
+            // what a redo killed during an earlier build of t can leave behind
+            sc.history.push(Step::Write {
+                path: "t.redo.tmp".into(),
+                bytes: b"STALE PARTIAL OUTPUT OF A KILLED RUN\n".to_vec(),
+            });
+            meta.insert("stale_tmp".into(), serde_json::json!(true));
+        }
         let judged = sc.history.len();
         sc.history
             .push(Step::Cmds(vec![redo_cmd(rng, prog, &["t".to_string()], 2, 300)]));
@@ -250,10 +261,11 @@ impl Property for C04 {
             return v;
         }
         let desc = format!(
-            "[{} size={} prior={}{}]",
+            "[{} size={} prior={}{}{}]",
             b,
             case.meta["size"],
             prior,
+            if case.meta.contains_key("stale_tmp") { " stale-tmp" } else { "" },
             g.kill_fired.as_ref().map(|k| format!(" {}", k)).unwrap_or_default()
         );
         // what was there before the judged command
